@@ -1,10 +1,20 @@
 #!/bin/sh
-# usage: relock.sh [Cxx ...]  — rewrites the lock files (and evidence) of the given properties (default: all) from the current tree.
-# Refuses to run when /repo has uncommitted changes (locks must describe a committed tree).
+# usage: relock.sh [-j N] [Cxx ...]  — rewrites the lock files of the given properties (default: all) from a snapshot of /repo's HEAD
+# (git archive into a scratch directory, so /repo can be edited meanwhile; uncommitted /repo changes are NOT part of the locks).
+# Evidence written during lock generation goes to a scratch directory; run the quick checks afterwards to refresh /verif/evidence.
+J=3
+if [ "$1" = "-j" ]; then J=$2; shift 2; fi
 cd /verif
-if [ -n "$(git -C /repo status --porcelain)" ]; then echo "relock: /repo has uncommitted changes"; exit 2; fi
-[ $# -eq 0 ] && set -- C01 C02 C03 C04 C05 C06 C07 C08 C09 C10 C11 C12 C13 C14 C15 C16 C17 C18 C19 C20
+[ $# -eq 0 ] && set -- C13 C15 C01 C02 C03 C04 C05 C06 C07 C08 C09 C10 C11 C12 C14 C16 C17 C18 C19 C20
+W=$(mktemp -d /tmp/relock-XXXX); mkdir -p $W/repo $W/verif/evidence $W/verif/replays
+git -C /repo archive HEAD | tar -x -C $W/repo
+ln -s /verif/contracts $W/verif/contracts; ln -s /verif/obligations $W/verif/obligations; ln -s /verif/known_findings.json $W/verif/known_findings.json
+echo "relock from /repo $(git -C /repo rev-parse --short HEAD)"
+i=0
 for p in "$@"; do
-  GOFLAGS=-mod=mod GOPROXY=off GOSUMDB=off GOTOOLCHAIN=local ./bin/slockvc check -prop $p -write-lock > /tmp/wl_$p.log 2>&1
-  echo "$p rc=$? specerr=$(grep -c SPEC-ERROR /tmp/wl_$p.log) $(tail -1 /tmp/wl_$p.log | cut -c1-170)"
+  ( GOFLAGS=-mod=mod GOPROXY=off GOSUMDB=off GOTOOLCHAIN=local ./bin/slockvc check -prop $p -write-lock -repo $W/repo -verif $W/verif > /tmp/wl_$p.log 2>&1
+    echo "$p rc=$? specerr=$(grep -c SPEC-ERROR /tmp/wl_$p.log) $(tail -1 /tmp/wl_$p.log | cut -c1-170)" ) &
+  i=$((i+1)); if [ $((i % J)) -eq 0 ]; then wait; fi
 done
+wait
+rm -rf $W
